@@ -392,6 +392,8 @@ def static_part(run: core.Run, tr):
         "model_refuted": sorted(n for n, v in verdict.items() if v.get("model_refuted")),
         "statements": {f["name"]: len(tr.flatten(f["body"], [])) for f in fns},
         "logged_attribute_rebindings": sorted({l for f in fns for l in f["logged"]}),
+        # summary "the result (or something it refers to) may be / may be a view of parameter i", from the checker
+        "result_may_alias_params": {n: v["result_params"] for n, v in sorted(verdict.items()) if v.get("result_params")},
         "wall_s": round(time.time() - t0, 1)}
     return verdict, fns
 
@@ -509,6 +511,8 @@ def fn_cases(name, rng):
         a = {"image_height": H, "image_width": W, "max_stride": rng.choice([1, 2, 8, 16])}
     elif name in ("get_max_instances", "get_max_height_width"):
         a = {"labels": {"t": "labels", "labels": D.gen_label_set(rng)}}
+    elif name in D.CHUNK_FNS:
+        return D.gen_chunk_case(rng, name)
     if a is None:
         return None
     return {"fn": name, "args": a, "torch_seed": rng.randrange(1 << 30)}
@@ -541,6 +545,8 @@ def run_fn_case(tr, case):
     res, raised = None, None
     try:
         res = fn(**args)
+        if inspect.isgenerator(res):       # centered_instance_data_chunks yields one sample per instance
+            res = list(res)
     except Exception as e:                 # the helpers are total on the generated domain
         raised = f"{type(e).__name__}: {e}"
     written, changes = [], []
@@ -587,6 +593,102 @@ def f5_function_selector(case, changes) -> bool:
     return True
 
 
+def chunk_plain(res):
+    """chunk results without the PIL images (compared through their pixels)"""
+    import numpy as np
+
+    def conv(v):
+        if isinstance(v, dict):
+            return {k: conv(x) for k, x in v.items()}
+        if isinstance(v, list):
+            return [conv(x) for x in v]
+        if hasattr(v, "getdata") and hasattr(v, "size"):       # PIL image
+            return np.asarray(v).copy()
+        return v
+    return conv(res)
+
+
+def chunk_model_part(run, chunk_obs):
+    """Chunks.run_chunk (Coq: process_lf rows / padding / num_instances x eff_scale [x scale], centroids,
+    one crop per non-empty instance) against what the real chunk functions returned."""
+    import numpy as np
+    if not chunk_obs:
+        return
+    fixed = code_is_fixed()
+
+    def kp(p):
+        return "None" if p is None else f"(Some ({core.cq(D.frac(p[0]))}, {core.cq(D.frac(p[1]))}))"
+
+    def term(c):
+        f = D.chunk_facts(c)
+        raw = core.clist(f["frame"]["insts"], lambda i: f"({core.cbool(not i['pred'])}, {core.clist(i['pts'], kp)})")
+        return (f"({core.cbool(fixed)}, {core.copt(f['anchor'], core.cnat)}, {core.cbool(f['uo'])}, "
+                f"{core.cnat(f['maxi'])}, {core.cq(D.frac(f['eff']))}, {core.cq(D.frac(f['scale']))}, {raw})")
+    pre = ("From SV Require Import C11.Values C11.Dataset C11.Chunks.\nFrom Coq Require Import List QArith.\n"
+           "Import ListNotations.\nDefinition rkp := ropt (rpair rQ rQ).\n"
+           "Definition rrows := rpair (rlist (rlist rkp)) rnat.\n")
+    model = core.coq_eval_sharded(pre, [term(c) for c, _ in chunk_obs], "run_chunk",
+                                  "rpair (rpair rrows rrows) (rpair (rpair rrows (rlist rkp)) (rlist (rpair rkp (rlist rkp))))",
+                                  shard=80)
+
+    def kp_close(m, x, shift=None):
+        if m is None:
+            return x[0] is None and x[1] is None
+        if x[0] is None or x[1] is None:
+            return False
+        mv = [float(core.frac(m[0])), float(core.frac(m[1]))]
+        if shift is not None:
+            mv = [mv[0] - shift[0], mv[1] - shift[1]]
+        return bool(np.allclose(mv, x, atol=1e-3, rtol=1e-4))
+
+    def rows_ok(mrows, mn, got):
+        return got["n"] == mn and len(got["rows"]) == len(mrows) and all(
+            len(r) == len(g) and all(kp_close(m, x) for m, x in zip(r, g)) for r, g in zip(mrows, got["rows"]))
+    bad = []
+    for (c, got), ((mbu, msi), ((mce, mcents), mcrops)) in zip(chunk_obs, model):
+        why = None
+        n = c["fn"]
+        if "error" in got:
+            why = got["error"]
+        elif n == "bottomup_data_chunks" and not rows_ok(mbu[0], mbu[1], got):
+            why = f"impl n={got['n']} rows {got['rows']} model {mbu}"
+        elif n == "single_instance_data_chunks" and not rows_ok(msi[0], msi[1], got):
+            why = f"impl n={got['n']} rows {got['rows']} model {msi}"
+        elif n == "centroid_data_chunks":
+            if not rows_ok(mce[0], mce[1], got):
+                why = f"instances: impl n={got['n']} rows {got['rows']} model {mce}"
+            elif len(mcents) != len(got["cents"]) or not all(kp_close(m, x) for m, x in zip(mcents, got["cents"])):
+                why = f"centroids: impl {got['cents']} model {mcents}"
+        elif n == "centered_instance_data_chunks":
+            if len(mcrops) != len(got["crops"]):
+                why = f"{len(got['crops'])} crops, model {len(mcrops)}"
+            else:
+                for k, (g, (mc, mk)) in enumerate(zip(got["crops"], mcrops)):
+                    if mc is None or g["cen_nan"]:
+                        why = f"crop {k}: centroid missing (model {mc}, impl NaN={g['cen_nan']})"
+                        break
+                    sh = [float(core.frac(mc[0])), float(core.frac(mc[1]))]
+                    if len(mk) != len(g["rel"]) or not all(kp_close(m, x, sh) for m, x in zip(mk, g["rel"])):
+                        why = f"crop {k}: instance - centroid: impl {g['rel']} model {mk} - {mc}"
+                        break
+        if why:
+            bad.append({"fn": n, "args": {k: v for k, v in c["args"].items() if k != "x"},
+                        "frame": D.chunk_facts(c)["frame"], "why": why[:600]})
+    run.obligation("correspondence: Chunks.run_chunk (Coq) == get_data_chunks (/repo): instances rows / NaN padding / "
+                   "num_instances, centroids, crops relative to their centroid, on every generated call", not bad,
+                   json.dumps(bad[:2])[:900])
+    run.coverage["chunk_model"] = {"calls": len(chunk_obs), "fixed": fixed,
+                                   "scale_ne_1": sum(1 for c, _ in chunk_obs if c["args"]["scale"] != 1.0),
+                                   "all_anchors_no_padding": sum(1 for c, _ in chunk_obs if chunk_dense(c))}
+
+
+def chunk_dense(c) -> bool:
+    """anchor configured and labelled in every instance of the frame, no padding row"""
+    f = D.chunk_facts(c)
+    return f["anchor"] is not None and all(i["pts"][f["anchor"]] is not None for i in f["cons"]) and \
+        (f["maxi"] == 1 or len(f["cons"]) == f["maxi"])
+
+
 def functional_part(run, tr, verdict, tier):
     import torch
     n_per = 14 if tier == "quick" else 300
@@ -599,9 +701,11 @@ def functional_part(run, tr, verdict, tier):
         c = json.loads(p.read_text())
         if c.get("kind") == "function":
             cases.append(c["case"])
+    n_chunk = 40 if tier == "quick" else 500
+    chunk_obs = []
     for n in names:
         k = 0
-        while k < n_per:
+        while k < (n_chunk if n in D.CHUNK_FNS else n_per):
             c = fn_cases(n, run.rng)
             if c is None:
                 break
@@ -633,6 +737,29 @@ def functional_part(run, tr, verdict, tier):
             run.violation("failing-input", {"what": f"{n} altered its argument(s)", "case": c,
                                             "changes": obs["changes"][:4], "oracle_clause": "input tensors untouched"},
                           selector=sel)
+        # (c) chunk functions: what the sample holds of the labelled frame (labels x factor, NaN pattern,
+        #     padding, centroids, one crop per instance), and the same call again gives the same sample
+        if n in D.CHUNK_FNS and obs["raised"]:
+            oracle_bad += 1
+            failing[n].append(None)
+            run.violation("failing-input", {"what": f"{n} raised on a labelled frame with a non-empty instance",
+                                            "case": c, "raised": obs["raised"][:300], "oracle_clause": "total"})
+        elif n in D.CHUNK_FNS:
+            fails = D.check_chunk(c, obs["result"])
+            again = run_fn_case(tr, c)
+            if again["raised"] or not D.same_value(chunk_plain(obs["result"]), chunk_plain(again["result"])):
+                fails.append({"clause": "the same call on the same labelled frame gives the same sample (bit for bit)",
+                              "detail": again["raised"] or "results differ"})
+            if fails:
+                oracle_bad += 1
+                failing[n].append(None)
+                run.violation("failing-input", {"what": f"{n}: chunk sample does not hold the labels as they are",
+                                                "case": c, "failures": fails[:4], "oracle_clause": fails[0]["clause"]})
+            try:
+                chunk_obs.append((c, D.chunk_summary(c, obs["result"])))
+            except Exception as e:
+                chunk_obs.append((c, {"error": f"{type(e).__name__}: {e}"}))
+    chunk_model_part(run, chunk_obs)
     run.obligation("tie (operation table): observed argument writes / result-argument storage sharing are "
                    "included in the analysis' predictions on every generated call", not tie_bad,
                    "; ".join(tie_bad[:4]))
@@ -1225,8 +1352,12 @@ def replay(run: core.Run, path: str) -> int:
         return 1
     if "fn" in case:
         obs = run_fn_case(tr, case)
-        print(json.dumps({"fn": case["fn"], "written": obs["written"], "changes": obs["changes"][:4]}, default=str))
-        return 1 if obs["written"] else 0
+        fails = []
+        if case["fn"] in D.CHUNK_FNS:
+            fails = [{"clause": "total", "detail": obs["raised"]}] if obs["raised"] else D.check_chunk(case, obs["result"])
+        print(json.dumps({"fn": case["fn"], "written": obs["written"], "changes": obs["changes"][:4],
+                          "failures": fails[:6]}, default=str))
+        return 1 if (obs["written"] or fails) else 0
     real = None
     if case.get("real_sio"):
         import sleap_io as sio
